@@ -15,11 +15,11 @@
 (*   metadata         ArbiterStore.Save/Load (59-177), Load() seeds        *)
 (*                    proposalId from commitId (1380-1399)                 *)
 (*                                                                         *)
-(* Four constants switch between a defective and a repaired behaviour.     *)
+(* Five constants switch between a defective and a repaired behaviour.     *)
 (* THE CODE TODAY IS: CmpFixed = TRUE, PidFixed = TRUE, HostFixed = TRUE   *)
-(* (repaired by commits 9de8629, 11f419c, a3a0796) and PersistFixed =      *)
-(* FALSE (finding A7, still open).  The FALSE values of the first three    *)
-(* are kept as regression models of the old defects:                       *)
+(* (repaired by commits 9de8629, 11f419c, a3a0796), RejectVetoes = TRUE    *)
+(* and PersistFixed = FALSE (finding A7, still open).  The FALSE values of *)
+(* the others are kept as regression models of defects:                    *)
 (*   CmpFixed      TRUE (code): CompareAofId takes the file INDEX as the   *)
 (*                 major and the offset as the minor component; FALSE      *)
 (*                 (before 9de8629, finding A21): offset major.            *)
@@ -40,6 +40,19 @@
 (*   HostFixed     TRUE (code): a failed DoCommit clears proposalHost only *)
 (*                 when it records this candidate's own pending commit;    *)
 (*                 FALSE (before a3a0796, finding A23): whoever set it.    *)
+(*   RejectVetoes  TRUE (code): one ERR_REJECT ("my own log is newer than  *)
+(*                 the position you propose"; also the candidate's own     *)
+(*                 DoSelfProposal) aborts the candidacy at the end of the  *)
+(*                 proposal round whatever the number of accepts           *)
+(*                 (DoProposal 1185).  FALSE (a deviation that was never   *)
+(*                 in the code; kept as the model of the defect class "the *)
+(*                 refusal is only looked at without a majority"): with a  *)
+(*                 majority of accepts the candidate goes on to the commit *)
+(*                 round.  The refusal is the ONLY guard where the         *)
+(*                 election majority need not contain the newest data      *)
+(*                 member: arbiters (3 data + 2 arbiters: {stale follower, *)
+(*                 arbiter, arbiter} is a majority of 5), a newest member  *)
+(*                 of weight 0 (never proposed), a vote reply lost.        *)
 (* Other as-coded details that matter: proposalIndex may be raised by an   *)
 (* ERR_PROPOSALID reply while the proposal is still out; DoCommit sends    *)
 (* proposalIndex; a successful DoCommit sets proposalHost to the vote host *)
@@ -57,7 +70,7 @@ CONSTANTS N,             \* members are 1..N; host order = index order
           MaxRounds,     \* candidacies per candidate
           MaxRestarts,
           Lose,          \* BOOLEAN: messages may be lost
-          CmpFixed, PersistFixed, PidFixed, HostFixed
+          CmpFixed, PersistFixed, PidFixed, HostFixed, RejectVetoes
 
 Members == 1..N
 Maj == (N \div 2) + 1
@@ -103,7 +116,10 @@ InProgress(c) == cand[c].ph \in {"vote", "voted", "prop", "proped", "commit"}
 
 NoSlots == [m \in Members |-> "none"]
 NoRsp == [m \in Members |-> [res |-> ""]]
-Cand0 == [ph |-> "idle", round |-> 0, idx |-> 0, vhost |-> 0, vaof |-> Z, resp |-> <<>>, cnt |-> 0, rej |-> FALSE,
+\* rej: a refusal "my log is newer" reached the candidate in this proposal round (isReject);
+\* newer: the data members that answered this proposal round (the own member included) and whose own log is
+\*        newer than the proposed position in the append order of the log - bookkeeping for NewestWins only
+Cand0 == [ph |-> "idle", round |-> 0, idx |-> 0, vhost |-> 0, vaof |-> Z, resp |-> <<>>, cnt |-> 0, rej |-> FALSE, newer |-> {},
           slots |-> NoSlots, rsp |-> NoRsp, req |-> [pid |-> 0, host |-> 0, aof |-> Z]]
 
 Triple(a) == <<a.pid, a.cid, a.host>>
@@ -144,7 +160,8 @@ Finish(c, cd, ac) ==
                 IN IF s = 0 THEN [cd |-> [cd EXCEPT !.ph = "failed"], acc |-> ac, won |-> FALSE]
                    ELSE [cd |-> [cd EXCEPT !.ph = "voted", !.vhost = cd.resp[s].host, !.vaof = cd.resp[s].aof], acc |-> ac, won |-> FALSE]
       [] cd.ph = "prop" ->
-           IF cd.rej \/ cd.cnt < Maj THEN [cd |-> [cd EXCEPT !.ph = "failed"], acc |-> ac, won |-> FALSE]
+           \* DoProposal 1185-1191: the refusal is tested BEFORE the count (RejectVetoes = FALSE: only without a majority)
+           IF (RejectVetoes /\ cd.rej) \/ cd.cnt < Maj THEN [cd |-> [cd EXCEPT !.ph = "failed"], acc |-> ac, won |-> FALSE]
            ELSE [cd |-> [cd EXCEPT !.ph = "proped"],
                  acc |-> IF PidFixed THEN ac ELSE [ac EXCEPT ![c].pid = cd.idx], won |-> FALSE]
       [] cd.ph = "commit" ->
@@ -180,7 +197,7 @@ SelfRsp(c) == [host |-> c, w |-> cfg.w[c], arb |-> cfg.arb[c], aof |-> CurAof(c)
 StartVote(c) ==
     /\ cand[c].ph \in {"idle", "failed"} /\ cand[c].round < MaxRounds /\ Guard(c)
     /\ cand' = [cand EXCEPT ![c] = [@ EXCEPT !.ph = "vote", !.round = @ + 1, !.vhost = 0, !.vaof = Z, !.resp = <<SelfRsp(c)>>,
-                                             !.cnt = 0, !.rej = FALSE, !.rsp = NoRsp,
+                                             !.cnt = 0, !.rej = FALSE, !.newer = {}, !.rsp = NoRsp,
                                              !.slots = [m \in Members |-> IF m = c THEN "none" ELSE "req"]]]
     /\ view' = IF cfg.arb[c] # 0 THEN [view EXCEPT ![c][c] = ArbAof(c)] ELSE view
     /\ shadow' = shadow \ {c}
@@ -205,6 +222,7 @@ StartProposal(c) ==
        IN /\ acc' = [acc EXCEPT ![c] = a1]
           /\ saved' = IF r = "ok" THEN Persist(c, a1) ELSE saved
           /\ cand' = [cand EXCEPT ![c] = [@ EXCEPT !.ph = "prop", !.idx = idx, !.cnt = IF r = "ok" THEN 1 ELSE 0, !.rej = (r = "REJECT"),
+                                                   !.newer = IF cfg.arb[c] = 0 /\ CmpTrue(cfg.aof[c], cand[c].vaof) > 0 THEN {c} ELSE {},
                                                    !.rsp = NoRsp, !.req = [pid |-> idx, host |-> cand[c].vhost, aof |-> cand[c].vaof],
                                                    !.slots = [m \in Members |-> IF m = c THEN "none" ELSE "req"]]]
           /\ badAccept' = (r = "ok" /\ cfg.arb[c] = 0 /\ CmpTrue(cfg.aof[c], cand[c].vaof) > 0)
@@ -279,11 +297,13 @@ DeliverRsp(c, m) ==
     /\ LET ph == cand[c].ph
            r  == cand[c].rsp[m]
            c0 == [cand[c] EXCEPT !.slots[m] = "done"]
+           cn == IF ph = "prop" /\ cfg.arb[m] = 0 /\ CmpTrue(cfg.aof[m], cand[c].req.aof) > 0
+                 THEN [c0 EXCEPT !.newer = @ \cup {m}] ELSE c0
            c1 == CASE ph = "vote"   -> [c0 EXCEPT !.resp = Append(@, [host |-> r.host, w |-> r.w, arb |-> r.arb, aof |-> r.aof])]
-                   [] ph = "prop"   -> IF r.res = "" THEN [c0 EXCEPT !.cnt = @ + 1]
-                                       ELSE IF r.res = "ERR_REJECT" THEN [c0 EXCEPT !.rej = TRUE]
-                                       ELSE IF r.res = "ERR_PROPOSALID" /\ c0.idx < r.pid THEN [c0 EXCEPT !.idx = r.pid]
-                                       ELSE c0
+                   [] ph = "prop"   -> IF r.res = "" THEN [cn EXCEPT !.cnt = @ + 1]
+                                       ELSE IF r.res = "ERR_REJECT" THEN [cn EXCEPT !.rej = TRUE]
+                                       ELSE IF r.res = "ERR_PROPOSALID" /\ cn.idx < r.pid THEN [cn EXCEPT !.idx = r.pid]
+                                       ELSE cn
                    [] ph = "commit" -> IF r.res = "" THEN [c0 EXCEPT !.cnt = @ + 1] ELSE c0
        IN /\ view' = IF ph = "vote" THEN [view EXCEPT ![c][m] = r.aof] ELSE view
           /\ Resolve(c, c1, "drsp", m)
@@ -362,6 +382,15 @@ ChoiceOK == \A c \in Cands : cand[c].ph \in {"voted", "prop", "proped", "commit"
 \* members whose own log is newer refuse the proposal
 NewerRefuses == ~badAccept
 
+\* ... and the candidate honours the refusal: a candidacy that received a refusal "my log is newer" in its
+\* proposal round does not win
+RefusalHonoured == \A c \in Cands : cand[c].ph \in {"won", "saved"} => ~cand[c].rej
+
+\* end to end: the winner's log position is not older than the log of any data member that answered the
+\* proposal round of the winning candidacy (a member that was unreachable may legitimately be newer; the
+\* vote round is ChoiceOK's)
+NewestWins == \A c \in Cands : cand[c].ph \in {"won", "saved"} => cand[c].newer = {}
+
 Quiescent == \A c \in Cands : ~Running(c) /\ cand[c].ph \notin {"voted", "proped", "won"} /\ (cand[c].ph \in {"idle", "failed"} => (cand[c].round >= MaxRounds \/ ~Guard(c)))
 
 \* counterexample / behaviour export (always TRUE or FALSE exactly as the wrapped predicate)
@@ -369,6 +398,12 @@ Cex(name, ok) == ok \/ ~PrintT("CEX " \o name \o " " \o ToJson(hist))
 CexOneWinner == Cex("onewinner", OneWinner)
 CexChoice == Cex("choice", ChoiceOK)
 CexNewer == Cex("newer", NewerRefuses)
+CexRefusal == Cex("refusal", RefusalHonoured)
+CexNewest == Cex("newest", NewestWins)
+\* export form for runs on a DEVIATION of the model: always TRUE, prints the history of every state that refutes
+\* the wrapped invariant (TLC goes on, so one run yields the counterexamples of every configuration)
+Exp(name, ok) == ok \/ PrintT("CEX " \o name \o " " \o ToJson(hist))
+ExpNewest == Exp("newest", NewestWins /\ RefusalHonoured)
 NoRegress == ~regress
 CexMonotone == Cex("monotone", NoRegress)
 
